@@ -172,12 +172,117 @@ func GroundCovers(c, p string) bool {
 		if k == "" || have[k] {
 			continue
 		}
-		// negative outcomes of value tests are artefacts of the order in which independent cases are tried;
-		// negative type tests define the default arm of a type switch and are kept
-		if strings.HasPrefix(k, "-") && !strings.HasPrefix(k, "-is(") {
+		// negative outcomes of comparisons with constants and of map lookups are artefacts of the order in which
+		// independent cases are tried (switch arms); negative type tests define the default arm of a type switch,
+		// negative calls and field tests are genuine conditions: both are kept
+		if strings.HasPrefix(k, "-==(") || strings.HasPrefix(k, "-!=(") || strings.HasPrefix(k, "-lookup") {
 			continue
 		}
 		return false
 	}
 	return true
+}
+
+// ReturnGrounds lists, for every return instruction of fn, the set of branch outcomes under which it executes.
+func ReturnGrounds(fn *ssa.Function) []string {
+	var out []string
+	for _, ret := range Returns(fn) {
+		m := map[string]bool{}
+		for _, a := range ControllingConds(ret) {
+			if a.Var.Call != nil {
+				m[CondDesc(a.Var.Call, a.Val)] = true
+			}
+		}
+		ks := make([]string, 0, len(m))
+		for k := range m {
+			ks = append(ks, k)
+		}
+		sort.Strings(ks)
+		out = append(out, strings.Join(ks, " ∧ "))
+	}
+	sort.Strings(out)
+	return out
+}
+
+// PathGrounds enumerates the acyclic paths from the entry of fn to each of its return instructions and renders every
+// path as the set of branch outcomes taken on it (a disjunctive normal form of "when does the function return here").
+// Unlike ReturnGrounds it separates the arms of a short-circuit `a || b` that lead to the same return statement.
+// The enumeration is capped; ok is false when the cap was hit.
+func PathGrounds(fn *ssa.Function, limit int) (grounds []string, ok bool) {
+	return PathGroundsTo(fn, limit, nil)
+}
+
+// PathGroundsTo is PathGrounds restricted to the returns accepted by want (nil: all).
+func PathGroundsTo(fn *ssa.Function, limit int, want func(*ssa.Return) bool) (grounds []string, ok bool) {
+	if len(fn.Blocks) == 0 {
+		return nil, false
+	}
+	set := map[string]bool{}
+	onPath := map[*ssa.BasicBlock]bool{}
+	count := 0
+	ok = true
+	var walk func(b *ssa.BasicBlock, conds []string)
+	walk = func(b *ssa.BasicBlock, conds []string) {
+		if onPath[b] || !ok {
+			return
+		}
+		if len(b.Instrs) == 0 {
+			return
+		}
+		last := b.Instrs[len(b.Instrs)-1]
+		switch t := last.(type) {
+		case *ssa.Return:
+			if want != nil && !want(t) {
+				return
+			}
+			count++
+			if count > limit {
+				ok = false
+				return
+			}
+			m := map[string]bool{}
+			for _, c := range conds {
+				m[c] = true
+			}
+			ks := make([]string, 0, len(m))
+			for k := range m {
+				ks = append(ks, k)
+			}
+			sort.Strings(ks)
+			set[strings.Join(ks, " ∧ ")] = true
+			return
+		case *ssa.If:
+			onPath[b] = true
+			cond := t.Cond
+			neg := false
+			for {
+				if u, isNot := cond.(*ssa.UnOp); isNot && u.Op == token.NOT {
+					cond, neg = u.X, !neg
+					continue
+				}
+				break
+			}
+			if _, isPhi := cond.(*ssa.Phi); isPhi {
+				// the join of a short-circuit expression: the outcome is already determined by the path taken
+				walk(b.Succs[0], conds)
+				walk(b.Succs[1], conds)
+			} else {
+				walk(b.Succs[0], append(append([]string{}, conds...), CondDesc(cond, !neg)))
+				walk(b.Succs[1], append(append([]string{}, conds...), CondDesc(cond, neg)))
+			}
+			onPath[b] = false
+			return
+		}
+		onPath[b] = true
+		for _, s := range b.Succs {
+			walk(s, conds)
+		}
+		onPath[b] = false
+	}
+	walk(fn.Blocks[0], nil)
+	for k := range set {
+		grounds = append(grounds, k)
+	}
+	sort.Strings(grounds)
+	return grounds, ok
 }
